@@ -69,6 +69,7 @@ func (f *faultReader) Seek(off int64, whence int) (int64, error) {
 type faultWriter struct {
 	k       int
 	partial bool
+	full    bool // the failing write reports the whole chunk as written together with the error (a tee or flushing sink)
 	buf     bytes.Buffer
 	faults  int
 	writes  int
@@ -80,6 +81,10 @@ func (f *faultWriter) Write(p []byte) (int, error) {
 		return f.buf.Write(p)
 	}
 	f.faults++
+	if f.full {
+		f.buf.Write(p)
+		return len(p), errInjected
+	}
 	if f.partial {
 		n := f.k - f.buf.Len()
 		f.buf.Write(p[:n])
@@ -197,8 +202,9 @@ func c18WriteFaults(c *fw.Ctx, seed uint64) *fw.Outcome {
 			}
 		}
 		for _, k := range offsets {
-			for _, partial := range []bool{false, true} {
-				fwr := &faultWriter{k: k, partial: partial}
+			for mode := 0; mode < 3; mode++ {
+				partial := mode == 1
+				fwr := &faultWriter{k: k, partial: partial, full: mode == 2}
 				p := guard(func() { err = w.write(*s, fwr) })
 				c.Count("write_faults_injected", 1)
 				if p != "" {
@@ -206,7 +212,7 @@ func c18WriteFaults(c *fw.Ctx, seed uint64) *fw.Outcome {
 					return &o
 				}
 				if err == nil {
-					o := fw.Bad(key, nil, "%s writer: the destination failed at offset %d of %d (%s) after %d writes, but the writer returned a nil error (list seed %d)", w.name, k, n, map[bool]string{false: "whole chunk refused", true: "partial write"}[partial], fwr.writes, seed)
+					o := fw.Bad(key, nil, "%s writer: the destination failed at offset %d of %d (%s) after %d writes, but the writer returned a nil error (list seed %d)", w.name, k, n, []string{"whole chunk refused", "partial write", "whole chunk reported written together with the error"}[mode], fwr.writes, seed)
 					return &o
 				}
 			}
@@ -224,10 +230,16 @@ func c18LongLines(c *fw.Ctx) *fw.Outcome {
 			"webvtt": []byte("WEBVTT\n\n1\n00:00:01.000 --> 00:00:02.000\nfirst\n\n2\n00:00:03.000 --> 00:00:04.000\n" + long + "\n\n3\n00:00:05.000 --> 00:00:06.000\nlast\n"),
 			"ssa":    []byte("[Script Info]\nTitle: t\n\n[Events]\nFormat: Start, End, Text\nDialogue: 0:00:01.00,0:00:02.00,first\nDialogue: 0:00:03.00,0:00:04.00," + long + "\nDialogue: 0:00:05.00,0:00:06.00,last\n"),
 		}
-		for _, f := range []string{"srt", "webvtt", "ssa"} {
+		// the same SSA script with an embedded-files section in front of the events, and the WebVTT document with a
+		// STYLE block and a NOTE in front of the cues: what stands before does not excuse what comes after
+		docs["ssa+fonts"] = bytes.Replace(docs["ssa"], []byte("[Events]"), []byte("[Fonts]\nfontname: a.ttf\nM5Q)=!1A\n\n[Graphics]\nfilename: b.bmp\n\n[Events]"), 1)
+		docs["webvtt+style"] = bytes.Replace(docs["webvtt"], []byte("WEBVTT\n\n"), []byte("WEBVTT\n\nSTYLE\n::cue { color: red }\n\nNOTE a comment\n\n"), 1)
+		for _, f := range []string{"srt", "webvtt", "ssa", "ssa+fonts", "webvtt+style"} {
 			var sub *astisub.Subtitles
 			var err error
-			p := guard(func() { sub, err = corpusReader(f, astisub.TeletextOptions{})(bytes.NewReader(docs[f])) })
+			p := guard(func() {
+				sub, err = corpusReader(strings.SplitN(f, "+", 2)[0], astisub.TeletextOptions{})(bytes.NewReader(docs[f]))
+			})
 			c.Count("long_line_documents", 1)
 			if p != "" {
 				o := fw.Bad(uint64(l), nil, "%s reader panicked on a line of %d bytes: %s", f, l, p)
